@@ -14,6 +14,12 @@ __all__ = ['CutoutImage']
 
 def _overlap_slices(large_array_shape, small_array_shape, position,
                     mode='partial'):
+    # astropy's overlap_slices compares ``small_array_shape`` with a
+    # tuple when the small array ends exactly at the lower edge of the
+    # large array, which is ambiguous (ValueError) for an ndarray shape
+    if isinstance(small_array_shape, np.ndarray):
+        small_array_shape = tuple(small_array_shape.tolist())
+
     slc_lg, slc_sm = overlap_slices(large_array_shape, small_array_shape,
                                     position, mode=mode)
 
